@@ -137,7 +137,7 @@ ADDED = {
     "C08": "Plus 45 request targets of every form (origin, absolute, authority, asterisk, empty) x form bodies x content types x all four option sets, and every empty / one-byte / two-byte value of Content-Type parameters and Authorization fields; server clocks and request dates at the edges of the time types. SignedHeaders lists of 10..104 entries differing in case only, in structured arrangements, rotations and fixed shuffles. Authorization headers made of every sequence of up to 4 (5) fields over ten kinds, with the logger formatting. The child runs under a 12 GiB address-space limit and a wall-clock limit (unbounded allocation and a case that never returns are violations, not machine failures). Requests with 24574 / 24575 / 24576 distinct header names (the most http admits) and 32700 values of one name, plain and as folded form POSTs with Content-Length. An ASCII run of every length 0..300 followed by 2-, 3- and 4-byte characters in each of 11 text inputs, once plausible and once made to be refused.",
     "C09": "Plus paths behind a first segment padded to 47 lengths (0..5000 bytes) canonicalised in both modes back to back in both orders, and every ordered pair over 78 related (path, mode) symbols on one thread; first segments of 10 000 .. 200 000 bytes (plain, to-be-escaped, escaped) followed by dot-segment tails; the end-to-end path sweep also with folded form bodies. 11 methods x 5 request targets ('*' among them). 8 paths whose normal form differs between the modes x both modes x the server configured for every AWS region (62) x service signing name (70, the S3 family included) x carrier. Climbing, plain and relative paths with an ASCII run of every length 0..300 followed by 2-, 3- and 4-byte characters, both modes. Every pair of adjacent escapes %XX%YY (65 536) inside a segment and as a segment, both modes.",
     "C10": "Plus every ordered pair over 58 related query strings (prefixes, case / escape / separator variants, long strings differing at the end) back to back on one thread; the end-to-end sweep splits every list between URL and folded form body. Twelve folded form bodies with a raw byte-order mark, zero-width marks, NUL or line ends. 30 folded form bodies of 65 000 .. 1 048 577 bytes that are two pairs and otherwise '&' runs. 52 folded bodies (repeated as URL queries) with entity-like separators ('&amp;', '&#38;', ';', ...).",
-    "C11": "Plus a form POST signing 11 entity / framing / payload-digest headers under all four option sets: as signed, 8 replacement values, an added value and removal of each (incl. Cookie / Accept / Cache-Control with two values). Two or three signed names sharing a prefix and parting ways at every ordered pair over 21 header-name characters (all 15 punctuation marks), 3 shapes, sent in lower / upper case, both carriers. Each refused edit is also applied to the Parts the validator returned for the base request.",
+    "C11": "Plus a form POST signing 11 entity / framing / payload-digest headers under all four option sets: as signed, 8 replacement values, an added value and removal of each (incl. Cookie / Accept / Cache-Control with two values). Two or three signed names sharing a prefix and parting ways at every ordered pair over 21 header-name characters (all 15 punctuation marks), 3 shapes, sent in lower / upper case, both carriers. Every third refused edit is also applied to the Parts the validator returned for the base request.",
     "C12": "The body-coverage section runs under all four option sets with no / signed / unsigned declared X-Amz-Content-Sha256 and UNSIGNED-PAYLOAD, with replaced and emptied bodies; 27 form bodies of 65-200 kB with small parameters must be folded; every refused undecodable body is followed on the same thread by a correctly signed folded request; 12 degenerate form bodies. Twelve bodies with a raw byte-order mark and other special characters. Presigned folded requests with each X-Amz-* parameter twice (good in the URL and bad in the body, or the reverse) x 0..10 other body x 0 / 2 / 6 other URL parameters x token: the URL's value counts. All-ASCII bodies the declared charset cannot decode (any body under the WHATWG replacement labels, an ESC that starts no sequence under iso-2022-jp) are refused as InvalidBodyEncoding. Every third case of the main product carries accurate, signed Content-Length / Content-MD5 / X-Amz-Content-Sha256 headers.",
     "C13": "The product has a session-token dimension and date near-misses (well-formed + trailing characters, cut short, expired / future by half a second); every vector with at most two defects is validated right after the fully valid request on the same thread. Defective paths combined with unknown form charsets / undecodable bodies are refused for their path. The missing-parameter dimension also with what is missing (or all four) present in the other carrier's spelling as a decoy. Credential-date look-alikes (leading zero, plus sign, a blank in place of a zero pad) are values of the defect lattice.",
     "C14": "Every request class also with a session token; four classes with a folded form body. Two classes whose signature is valid under the all-zero / all-0xFF key. Five more classes at the edges of the freshness window at sub-second resolution (timestamps written with fractions). Three classes whose scope date is a look-alike of the right one. An io::Error of each of the 36 stable ErrorKinds, boxed directly and wrapped as SignatureError::IO, as the call's answer and as the readiness error.",
